@@ -113,7 +113,7 @@ def run_streams(pid, P, tier, seed, wdir, root, replay, built, log):
                         dist["gen:" + kv[0]] += int(kv[1])
         res["streams"].append({"name": name, "family": fam, "cases": n, "disagreements": nmis, "shards": len(shards)})
         res["distribution"][name] = {"outcomes": dict(dist.most_common(40)), "case_len_hist": {str(k): v for k, v in sorted(sizes.items())}}
-        if st.get("exhaustive") and tier == "thorough":
+        if (st.get("exhaustive") and tier == "thorough") or st.get("exhaustive_always"):
             res["exhaustive"] = True
     res["distinct_nontrivial"] = len(distinct)
     return res
